@@ -46,6 +46,10 @@ def fields(line):
     return dict(kv.split("=", 1) for kv in line.split(" ") if "=" in kv and not kv.startswith("opt="))
 
 
+def pd_backend(descr, cur):
+    return descr[cur].get("backend") if cur is not None else None
+
+
 def analyse(ctx, name, agg):
     """diff impl/model line by line, check dec == spec on both sides, build replays."""
     ops_p, impl_p, model_p, descr_p = (os.path.join(ctx.out, f"{name}.{e}") for e in ("ops", "impl", "model", "descr"))
@@ -78,9 +82,23 @@ def analyse(ctx, name, agg):
                 if ans == "nf=1":
                     bad_lines.discard(ln)
                     agg["benign_ast_drift"] += 1
+    n = min(len(ops), len(impl), len(model), len(descr))
+    # A production constructor (config.New, dns.New, NewWithOption) that starts rejecting the harness's minimal
+    # configuration for a reason unrelated to routing rules would turn every decision of a backend into `err`
+    # while the same rules still build through the builders (raw=): that is harness breakage, not a violation.
+    tot, broke, cur_b = {}, {}, None
+    for i in range(n):
+        if descr[i].get("kind") == "P":
+            cur_b = descr[i].get("backend")
+        elif ops[i].startswith("q ") and cur_b:
+            fi, fm = fields(impl[i]), fields(model[i])
+            tot[cur_b] = tot.get(cur_b, 0) + 1
+            if fi.get("dec") == "err" and fm.get("dec") not in ("err", None) and fi.get("raw") not in ("err", None):
+                broke[cur_b] = broke.get(cur_b, 0) + 1
+    broken = {b for b in tot if tot[b] >= 40 and broke.get(b, 0) > 0.5 * tot[b]}
+    agg["broken"] |= broken
     cur = None           # index of the current P line
     reported_prog = set()
-    n = min(len(ops), len(impl), len(model), len(descr))
     for i in range(n):
         d = descr[i]
         if d.get("kind") == "P":
@@ -94,11 +112,22 @@ def analyse(ctx, name, agg):
         why = None
         if d.get("kind") == "pipeline":
             if (i + 1) in bad_lines:
-                # the proofs are about another composition: a proof-coverage failure, not a failing input
-                msg = (f"the {d.get('backend')} call site is {impl[i]} but the theorems (and the harness-built "
-                       f"optimizers) are about {model[i]}")
-                ctx.say("  call site not covered: " + msg)
-                ctx.proof_failures.append(msg)
+                fi_, fm_ = fields(impl[i]), fields(model[i])
+                site = d.get("backend")
+                executed = site in ("dnsreq", "dnsresp", "daedns") or \
+                    str(ctx.cov.get("production_optimizer_chain", "")).startswith("regenerated")
+                msg = f"the {site} call site reads {impl[i]}; the theorems are about {model[i]}"
+                if site in ("dnsreq", "dnsresp", "daedns"):
+                    # dns.New / NewWithOption are executed for real: whatever the call site looks like, its effect is
+                    # in every decision of the stream; the source reading is a diagnostic only
+                    ctx.say("NOTE: " + msg + " (site is executed, not a coverage failure)")
+                elif fi_.get("pipeline") == fm_.get("pipeline") and fi_.get("glue") == fm_.get("glue") and executed:
+                    # only an option field differs and the production expressions themselves are compiled in
+                    ctx.say("NOTE: " + msg + " (the production optimizer expressions are executed)")
+                else:
+                    # the proofs are about another composition: a proof-coverage failure, not a failing input
+                    ctx.say("  call site not covered: " + msg)
+                    ctx.proof_failures.append(msg)
             continue
         if (i + 1) in bad_lines:
             why = "implementation differs from the proved model"
@@ -120,6 +149,8 @@ def analyse(ctx, name, agg):
             if fi.get("dec") not in ("err", None) and fi.get("dec") != fi.get("spec"):
                 why = "the compiled program decides differently from the rules as written"
         if why is None:
+            continue
+        if pd_backend(descr, cur) in broken:
             continue
         agg["flagged_lines"] += 1
         if (cur, why) in reported_prog or len(reported_prog) >= 8:   # at most 8 replays per stream
@@ -187,7 +218,8 @@ def run(ctx):
 
     agg = {"programs": 0, "programs_changed": 0, "evaluations": 0, "distinct": set(), "decisions": set(),
            "benign_ast_drift": 0, "flagged_lines": 0, "flagged_programs": set(),
-           "sens_negated_merge": 0, "sens_value_only_dedup": 0, "sens_outbound_by_name": 0, "decided_by_merged_rule": 0}
+           "sens_negated_merge": 0, "sens_value_only_dedup": 0, "sens_outbound_by_name": 0, "decided_by_merged_rule": 0,
+           "broken": set()}
     sample_ops, dist = [], {}
     for (name, pkg, hfile, test), res in zip(streams, results):
         if res is None:
@@ -215,12 +247,19 @@ def run(ctx):
         ctx.cov[k] = agg[k]
     ctx.cov["flagged_programs"] = len(agg["flagged_programs"])
     # generator-quality floors: the random streams must keep producing inputs on which the known wrong
-    # variants of the optimizers would decide differently (measured quick seed 1: 267 / 27 / 87 / 1747)
+    # variants of the optimizers would decide differently (measured quick seed 1: 298 / 28 / 76 / 1917)
     floors = {"sens_negated_merge": 50, "sens_value_only_dedup": 5, "sens_outbound_by_name": 15, "decided_by_merged_rule": 300}
     dfl = {"c04:traffic.rules_through_real_config.New": 600, "c04:dnsreq.matcher_from_real_dns.New": 250,
            "c04:dnsresp.matcher_from_real_dns.New": 250, "c04sel:programs_built_by_real_NewWithOption": 120,
            "c04:sharedcache.checks": 100, "c04:lpm.constructed_hash_collisions": 3, "c04:gen.must_shorthand_outbounds": 100,
+           "c04sel:programs_with_empty_rule_list": 5, "c04sel:fallback.alidns": 20, "c04sel:fallback.reject": 20,
            "c04sel:nodeall.decision.subnode_rule": 20, "c04sel:nodeall.decision.node_rule_after_subnode_miss": 20}
+    if agg["broken"] and not ctx.violations:
+        ctx.say("HARNESS-BROKEN: the production constructor rejects (almost) every generated program of "
+                + ", ".join(sorted(agg["broken"])) + " although the same rules build through the rule builders; "
+                "the harness's minimal configuration needs updating (not a violation of C04)")
+        ctx.finish(rule="production constructor rejects generated programs", evaluations=agg["evaluations"], distinct=len(agg["distinct"]))
+        return 2
     floor_fail = []
     if not ctx.violations and not ctx.proof_failures:
         for k, v in floors.items():
@@ -236,7 +275,7 @@ def run(ctx):
     if agg["benign_ast_drift"]:
         ctx.say(f"NOTE: {agg['benign_ast_drift']} normalised programs differ from the model's AST but have the same normal form (same meaning by theorem); not a violation")
     ctx.assumptions = [
-        "rule lists, geodata and packets/questions are generated (seeded, neighbour-heavy runs of rules sharing function/alias twin, negation and outbound; repeated and overlapping values; mixed keys; near-miss outbounds); the witness programs of the four C04 fix commits are replayed first on every run",
+        "rule lists, geodata and packets/questions are generated (seeded, neighbour-heavy runs of rules sharing function/alias twin, negation and outbound; repeated and overlapping values; mixed keys; near-miss outbounds); the witness programs of the C04 fix commits (seven: negated merge, empty expansion, truncated outbound key, dedup key collision, selector catch-all, empty daedns list, cache key file case) are replayed first on every run",
     ]
     return ctx.finish(
         rule="one evaluation = one (rule list, geodata, packet or DNS question or selector input) triple pushed through the real pipeline+builder+matcher and through the model; "
